@@ -143,6 +143,146 @@ def run(ctx):
         run_on(_Tagged(ctx, " [instance %s]" % inst.rsplit("@", 1)[0].lstrip("/") + "#%d" % (sorted(x[0] for x in sib).index(blk) + 1)), f, bv, wrappers)
 
 
+def table_form(b, coll_src, on_match_arm):
+    """The CREATE / DELETE / MODIFY table written as a map from path to a change kind (a local fieldless enum) that the arms
+    consult element by element.  Each kind is recognised by the guards under which it is entered, not by its name:
+      created  - key taken from the products, entered iff the materials have no entry for it;
+      deleted  - key taken from the materials, entered iff the products have no entry for it;
+      modified - key present on both sides, entered iff the two digests differ.
+    -> {"kinds": {variant: kind}, "arms": {rule kind: change kind}} or None if no such table exists."""
+    GET = ("std::collections::BTreeMap::get", "std::collections::HashMap::get")
+    HAS = ("std::collections::BTreeMap::contains_key", "std::collections::HashMap::contains_key")
+    NEXT = "std::iter::Iterator::next"
+    loops = list(b.loops().values())
+    def inner_loop(i):
+        ls = [l for l in loops if i in l]
+        return min(ls, key=len) if ls else None
+    def next_of(op):
+        """the loop element an operand is (derived from): block of the Iterator::next call, or None"""
+        lv = b.trace(op, (), lambda t: callee_name(t) == NEXT, {"__flow_all__": lambda t: callee_name(t) != NEXT, "__agg_all__": True})
+        bbs = {l.data[0] for l in lv if l.kind == "call" and callee_name(l.data[1]) == NEXT}
+        return next(iter(bbs)) if len(bbs) == 1 and all(l.kind in ("call", "const") for l in lv) else None
+    def unit_variant(op):
+        lv = b.trace(op)
+        if len(lv) == 1 and lv[0].kind == "agg" and lv[0].data[2].get("agg") == "adt" and not lv[0].data[2].get("ops"):
+            return (lv[0].data[2].get("adt"), lv[0].data[2].get("variant"))
+        if len(lv) == 1 and lv[0].kind == "const" and lv[0].data.get("repr"):
+            return ("const", lv[0].data.get("repr"))
+        return None
+    def lookup(t):
+        """(origin of the map looked into, loop element used as the key) of a get / contains_key call"""
+        return frozenset(coll_src(root_ids(b, t["args"][0]))), next_of(t["args"][1])
+    tables = {}
+    for (i, t) in b.calls_named("std::collections::BTreeMap::insert", "std::collections::HashMap::insert"):
+        if len(t["args"]) != 3 or on_match_arm(i):
+            continue
+        v = unit_variant(t["args"][2])
+        lp = inner_loop(i)
+        if v is None or lp is None:
+            continue
+        key_nx = next_of(t["args"][1])
+        if key_nx is None or key_nx not in lp:
+            continue
+        nt = b.blocks[key_nx]["term"]
+        key_org = frozenset(coll_src(root_ids(b, nt["args"][0]))) if nt["args"] else frozenset()
+        absent, present, differs, unknown = set(), set(), False, []
+        for (e, fa) in b.facts_dominating(i):
+            if e[0] not in lp:
+                continue
+            if fa[0] == "variant" and fa[2] in ("Some", "None"):
+                lv = b.trace(fa[1], (), lambda t2: callee_name(t2) in GET or callee_name(t2) == NEXT)
+                if lv and all(l.kind == "call" and l.data[0] == key_nx for l in lv) and fa[2] == "Some":
+                    continue            # the loop's own `Some(element)` edge
+                if lv and all(l.kind == "call" and callee_name(l.data[1]) in GET for l in lv):
+                    for l in lv:
+                        org, knx = lookup(l.data[1])
+                        if knx != key_nx:
+                            unknown.append("lookup with another key")
+                        (present if fa[2] == "Some" else absent).add(org)
+                    continue
+                unknown.append("variant test of something else")
+                continue
+            if fa[0] == "bool" and fa[1][0] == "call" and callee_name(fa[1][2]) in HAS:
+                org, knx = lookup(fa[1][2])
+                if knx != key_nx:
+                    unknown.append("contains_key with another key")
+                (present if fa[2] else absent).add(org)
+                continue
+            cm = as_cmp(fa)
+            if cm and cm[0] == "Ne":
+                sides = []
+                for o in (cm[1], cm[2]):
+                    lv = b.trace(o, (), lambda t2: callee_name(t2) in GET or callee_name(t2) == NEXT)
+                    if lv and all(l.kind == "call" and callee_name(l.data[1]) in GET and lookup(l.data[1])[1] == key_nx for l in lv):
+                        sides.append(("get", frozenset().union(*[lookup(l.data[1])[0] for l in lv])))
+                    elif lv and all(l.kind == "call" and l.data[0] == key_nx for l in lv):
+                        sides.append(("elem", key_org))
+                    else:
+                        sides.append(("?", None))
+                if all(sd[0] != "?" for sd in sides) and {sd[1] for sd in sides} == {frozenset(["materials"]), frozenset(["products"])}:
+                    differs = True
+                    continue
+                unknown.append("comparison of something else")
+                continue
+            unknown.append(fa[0])
+        M, P = frozenset(["materials"]), frozenset(["products"])
+        kind = None
+        if not unknown and not b.continuing_exits(lp):
+            if key_org == P and absent == {M} and not present and not differs:
+                kind = "created"
+            elif key_org == M and absent == {P} and not present and not differs:
+                kind = "deleted"
+            elif differs and not absent and ((key_org == P and present == {M}) or (key_org == M and present == {P})):
+                kind = "modified"
+        troot = frozenset(root_ids(b, t["args"][0]))
+        tables.setdefault(troot, {}).setdefault(v, set()).add(kind)
+    best = None
+    for troot, kinds in tables.items():
+        flat = {v: (next(iter(ks)) if len(ks) == 1 else None) for v, ks in kinds.items()}
+        if len(flat) >= 2 and (best is None or len(flat) > len(best[1])):
+            best = (troot, flat)
+    if best is None:
+        return None
+    troot, kinds = best
+    arms = {}
+    for (i, t) in b.calls_named("std::collections::BTreeSet::insert"):
+        if on_match_arm(i):
+            continue
+        arm = None
+        for (e, fa) in b.facts_dominating(i):
+            if fa[0] == "variant" and (fa[3] or "").endswith("ArtifactRule"):
+                arm = fa[2]
+        lp = inner_loop(i)
+        if arm not in ("Create", "Delete", "Modify") or lp is None:
+            continue
+        el_nx = next_of(t["args"][1])
+        found, other = None, False
+        for (e, fa) in b.facts_dominating(i):
+            if e[0] not in lp:
+                continue
+            if fa[0] == "variant" and fa[2] == "Some":
+                lv = b.trace(fa[1], (), lambda t2: callee_name(t2) == NEXT)
+                if lv and all(l.kind == "call" and l.data[0] == el_nx for l in lv):
+                    continue
+            cm = as_cmp(fa)
+            if cm and cm[0] == "Eq":
+                got, want = None, None
+                for o in (cm[1], cm[2]):
+                    lv = b.trace(o, (), lambda t2: callee_name(t2) in GET)
+                    if lv and all(l.kind == "call" and callee_name(l.data[1]) in GET and frozenset(root_ids(b, l.data[1]["args"][0])) == troot
+                                  and next_of(l.data[1]["args"][1]) == el_nx for l in lv):
+                        got = True
+                    elif len(lv) == 1 and lv[0].kind == "agg" and lv[0].data[2].get("variant") == "Some" and lv[0].data[2].get("ops"):
+                        want = unit_variant(lv[0].data[2]["ops"][0])
+                if got and want is not None:
+                    found = want
+                    continue
+            other = True
+        if found is not None and not other and el_nx is not None:
+            arms[arm] = kinds.get(found) if arms.get(arm, kinds.get(found)) == kinds.get(found) else None
+    return {"kinds": {("%s::%s" % (v[0].split("::")[-1], v[1])): k for v, k in kinds.items()}, "arms": arms}
+
+
 def run_on(ctx, f, b, wrappers):
     fx = ctx.fx
     # every function / closure of the rule engine's module (for defaulting scans)
@@ -323,7 +463,7 @@ def run_on(ctx, f, b, wrappers):
                  "rule kinds whose dispatch arm is reachable without the compile's Ok outcome: %s (REQUIRE takes its argument literally)" % bypass, ct["at"])
     # ---- D4 table
     # locate material_paths / product_paths: collect(filter_map(iter(link.materials|products)))
-    def coll_src(root):
+    def coll_src(root, _depth=0):
         """for a set root (call collect..): which link field it was built from"""
         res = set()
         for (k, i_, p) in root:
@@ -335,6 +475,17 @@ def run_on(ctx, f, b, wrappers):
             FLOW = {"__flow_all__": lambda tt: True, "__content__": True, "__agg_all__": True}
             SRC = lambda tt: callee_name(tt) in ("std::collections::BTreeMap::iter", "std::collections::BTreeMap::keys", "std::collections::BTreeMap::into_iter",
                                                  "std::collections::HashMap::iter", "std::collections::HashMap::keys")
+            if SRC(t) and t["args"]:
+                # the root is itself an iteration over a map (`m.keys()`, `m.iter()`): which field of the link that map is / was built from
+                for (k2, i2, p2) in root_ids(b, t["args"][0]):
+                    fields = [x[1] for x in p2 if x[0] == "f" and x[1] in ("materials", "products")]
+                    if fields:
+                        res.add(fields[-1])
+                    elif k2 == "call" and _depth < 3:
+                        res |= coll_src({(k2, i2, p2)}, _depth + 1)
+                    else:
+                        res.add("?")
+                continue
             if t["args"]:
                 lv = b.trace(t["args"][0], (), SRC, FLOW)
             else:
@@ -345,7 +496,10 @@ def run_on(ctx, f, b, wrappers):
                     # the map that is iterated: which field of the link it is
                     for (k2, i2, p2) in root_ids(b, l.data[1]["args"][0]):
                         fields = [x[1] for x in p2 if x[0] == "f" and x[1] in ("materials", "products")]
-                        res.add(fields[-1] if fields else "?")
+                        if not fields and k2 == "call" and _depth < 3:
+                            res |= coll_src({(k2, i2, p2)}, _depth + 1)     # a local map built from the link's: look through it
+                        else:
+                            res.add(fields[-1] if fields else "?")
                     continue
                 fields = [x[1] for x in l.path if x[0] == "f" and x[1] in ("materials", "products")]
                 if fields:
@@ -365,69 +519,81 @@ def run_on(ctx, f, b, wrappers):
             named["deleted"] = i
         else:
             queue_update = (i, t, a, c)
-    ctx.inst("C03/D4", "created = products \\\\ materials", "created" in named, "difference(product paths, material paths) found: %s" % ("created" in named))
-    ctx.inst("C03/D4", "deleted = materials \\\\ products", "deleted" in named, "difference(material paths, product paths) found: %s" % ("deleted" in named))
-    inter0 = [(i, t) for (i, t) in b.calls_named("std::collections::BTreeSet::intersection") if not on_match_arm(i)
-              and not any(fa[0] == "variant" and (fa[3] or "").endswith("ArtifactRule") for (e, fa) in b.facts_dominating(i))]
-    # modified: a set whose elements are elements of (material paths n product paths), inserted only on an edge where the two
-    # digests recorded for that path differ
-    mod_ok = False
-    mod_sets = set()
-    inter_mp = set()
-    for (i, t) in inter0:
-        a, c = coll_src(root_ids(b, t["args"][0])), coll_src(root_ids(b, t["args"][1]))
-        if sorted([sorted(a), sorted(c)]) == [["materials"], ["products"]]:
-            inter_mp.add(i)
-    for (i, t) in b.calls_named("std::collections::BTreeSet::insert"):
-        if on_match_arm(i):
-            continue
-        el = b.trace(t["args"][1], (), lambda x: callee_name(x) == "std::collections::BTreeSet::intersection")
-        if not (el and all(l.kind == "call" and l.data[0] in inter_mp and l.path == (ELEM,) for l in el)):
-            continue
-        differs = False
-        for (e, fa) in b.facts_dominating(i):
-            cm = as_cmp(fa)
-            if cm and cm[0] == "Ne":
-                gets = [def_call(b, o) for o in (cm[1], cm[2])]
-                if all(g and callee_name(g[1]) == "std::collections::BTreeMap::get" for g in gets) and \
-                        root_ids(b, gets[0][1]["args"][0]) != root_ids(b, gets[1][1]["args"][0]) and \
-                        all(root_ids(b, g[1]["args"][1]) == root_ids(b, t["args"][1]) for g in gets):
-                    differs = True
-        if differs:
-            mod_ok = True
-            mod_sets |= {(k, i_) for (k, i_, p) in root_ids(b, t["args"][0])}
-    ctx.inst("C03/D4", "modified = (materials n products) with differing digests", mod_ok,
-             "a set filled from intersection(material paths, product paths), each insertion dominated by `materials.get(path) != products.get(path)`: %s" % mod_ok)
-    # per-arm consumed sets: the intersections on the arms
-    arms = {}
-    for (i, t) in b.calls_named("std::collections::BTreeSet::intersection"):
-        if on_match_arm(i):
-            continue
-        arm = None
-        for (e, fa) in b.facts_dominating(i):
-            if fa[0] == "variant" and (fa[3] or "").endswith("ArtifactRule"):
-                arm = fa[2]
-        if arm:
-            other = root_ids(b, t["args"][1])
-            which = None
-            for (k, i_, p) in other:
-                if k != "call":
-                    continue
-                if i_ == named.get("created"):
-                    which = "created"
-                elif i_ == named.get("deleted"):
-                    which = "deleted"
-                elif mod_ok and (k, i_) in mod_sets:
-                    which = "modified"
-                else:
-                    tt = b.blocks[i_]["term"]
-                    if callee_name(tt) in ("std::iter::Iterator::filter_map", "std::iter::Iterator::filter") and tt["args"]:
-                        for l in b.trace(tt["args"][0], (), lambda x: callee_name(x) in ("std::collections::BTreeSet::difference", "std::collections::BTreeSet::intersection")):
-                            if l.kind == "call" and callee_name(l.data[1]).endswith("intersection") and l.data[0] in {x for (x, _t) in inter0}:
-                                which = "modified"
-            arms[arm] = which
-    for (kind, want) in (("Create", "created"), ("Delete", "deleted"), ("Modify", "modified")):
-        ctx.inst("C03/D4", "%s consumes filtered n %s" % (kind.upper(), want), arms.get(kind) == want, "%s arm intersects the filtered set with: %s" % (kind, arms.get(kind)))
+    table = None
+    if "created" not in named and "deleted" not in named:
+        table = table_form(b, coll_src, on_match_arm)
+    if table is not None:
+        TF = " (table form: a map from path to a change kind, filled under these guards, consulted element-wise on the arms)"
+        for kind_, txt in (("created", "created = products \\\\ materials"), ("deleted", "deleted = materials \\\\ products"),
+                           ("modified", "modified = (materials n products) with differing digests")):
+            ctx.inst("C03/D4", txt, kind_ in table["kinds"].values(), "change kinds recognised by their guards: %s%s" % (table["kinds"], TF))
+        for (kind, want) in (("Create", "created"), ("Delete", "deleted"), ("Modify", "modified")):
+            ctx.inst("C03/D4", "%s consumes filtered n %s" % (kind.upper(), want), table["arms"].get(kind) == want,
+                     "%s arm keeps the elements whose table entry is: %s%s" % (kind, table["arms"].get(kind), TF))
+    else:
+        ctx.inst("C03/D4", "created = products \\\\ materials", "created" in named, "difference(product paths, material paths) found: %s" % ("created" in named))
+        ctx.inst("C03/D4", "deleted = materials \\\\ products", "deleted" in named, "difference(material paths, product paths) found: %s" % ("deleted" in named))
+        inter0 = [(i, t) for (i, t) in b.calls_named("std::collections::BTreeSet::intersection") if not on_match_arm(i)
+                  and not any(fa[0] == "variant" and (fa[3] or "").endswith("ArtifactRule") for (e, fa) in b.facts_dominating(i))]
+        # modified: a set whose elements are elements of (material paths n product paths), inserted only on an edge where the two
+        # digests recorded for that path differ
+        mod_ok = False
+        mod_sets = set()
+        inter_mp = set()
+        for (i, t) in inter0:
+            a, c = coll_src(root_ids(b, t["args"][0])), coll_src(root_ids(b, t["args"][1]))
+            if sorted([sorted(a), sorted(c)]) == [["materials"], ["products"]]:
+                inter_mp.add(i)
+        for (i, t) in b.calls_named("std::collections::BTreeSet::insert"):
+            if on_match_arm(i):
+                continue
+            el = b.trace(t["args"][1], (), lambda x: callee_name(x) == "std::collections::BTreeSet::intersection")
+            if not (el and all(l.kind == "call" and l.data[0] in inter_mp and l.path == (ELEM,) for l in el)):
+                continue
+            differs = False
+            for (e, fa) in b.facts_dominating(i):
+                cm = as_cmp(fa)
+                if cm and cm[0] == "Ne":
+                    gets = [def_call(b, o) for o in (cm[1], cm[2])]
+                    if all(g and callee_name(g[1]) == "std::collections::BTreeMap::get" for g in gets) and \
+                            root_ids(b, gets[0][1]["args"][0]) != root_ids(b, gets[1][1]["args"][0]) and \
+                            all(root_ids(b, g[1]["args"][1]) == root_ids(b, t["args"][1]) for g in gets):
+                        differs = True
+            if differs:
+                mod_ok = True
+                mod_sets |= {(k, i_) for (k, i_, p) in root_ids(b, t["args"][0])}
+        ctx.inst("C03/D4", "modified = (materials n products) with differing digests", mod_ok,
+                 "a set filled from intersection(material paths, product paths), each insertion dominated by `materials.get(path) != products.get(path)`: %s" % mod_ok)
+        # per-arm consumed sets: the intersections on the arms
+        arms = {}
+        for (i, t) in b.calls_named("std::collections::BTreeSet::intersection"):
+            if on_match_arm(i):
+                continue
+            arm = None
+            for (e, fa) in b.facts_dominating(i):
+                if fa[0] == "variant" and (fa[3] or "").endswith("ArtifactRule"):
+                    arm = fa[2]
+            if arm:
+                other = root_ids(b, t["args"][1])
+                which = None
+                for (k, i_, p) in other:
+                    if k != "call":
+                        continue
+                    if i_ == named.get("created"):
+                        which = "created"
+                    elif i_ == named.get("deleted"):
+                        which = "deleted"
+                    elif mod_ok and (k, i_) in mod_sets:
+                        which = "modified"
+                    else:
+                        tt = b.blocks[i_]["term"]
+                        if callee_name(tt) in ("std::iter::Iterator::filter_map", "std::iter::Iterator::filter") and tt["args"]:
+                            for l in b.trace(tt["args"][0], (), lambda x: callee_name(x) in ("std::collections::BTreeSet::difference", "std::collections::BTreeSet::intersection")):
+                                if l.kind == "call" and callee_name(l.data[1]).endswith("intersection") and l.data[0] in {x for (x, _t) in inter0}:
+                                    which = "modified"
+                arms[arm] = which
+        for (kind, want) in (("Create", "created"), ("Delete", "deleted"), ("Modify", "modified")):
+            ctx.inst("C03/D4", "%s consumes filtered n %s" % (kind.upper(), want), arms.get(kind) == want, "%s arm intersects the filtered set with: %s" % (kind, arms.get(kind)))
     # REQUIRE / DISALLOW error conditions
     req = dis = False
     for (e, tb, fa) in b.all_edge_facts():
